@@ -35,7 +35,7 @@ THEOREMS = [
     "TornadoModel.C40.waker_always_captured",
     "TornadoModel.C40.stale_select_returns",
     "TornadoModel.C40.callbacks_on_loop_thread",
-    "TornadoModel.C40.raise_still_posts",
+    "TornadoModel.C40.raise_keeps_round",
     "TornadoModel.C40.close_progress",
     "TornadoModel.C40.close_rank_decreases",
     "TornadoModel.C40.join_returns",
@@ -204,6 +204,7 @@ class World:
         self.first_post = True
         self.seen_closing = False
         self.infra = None
+        self.handled = []               # exceptions handed to loop.call_exception_handler
 
     def rec(self, *ev):
         self.trace.append(list(ev))
@@ -395,6 +396,9 @@ class FakeLoop:
         else:
             W.errors.append("call_soon_threadsafe with %d args" % len(args))
         W.queue.append((cb, args, "report"))
+
+    def call_exception_handler(self, context):
+        self.W.handled.append(type(context.get("exception")).__name__)
 
     def create_task(self, coro):
         try:
@@ -733,6 +737,9 @@ def _focused_cases(rng):
         [["add_reader", 3, [["unready", "R", 3], ["raise"]]], ["ready", "R", 3], ["wait_run"], ["wait_run"], ["ready", "R", 3]],
         [["add_reader", 3, [["raise"]]], ["add_reader", 4, [["unready", "R", 4]]], ["ready", "R", 3], ["ready", "R", 4],
          ["wait_run"], ["wait_run"], ["remove_reader", 3]],
+        [["add_reader", 3, [["raise"]]], ["add_reader", 4, []], ["ready", "R", 3], ["ready", "R", 4]],
+        [["add_writer", 3, [["raise"]]], ["add_reader", 4, [["unready", "R", 4]]], ["add_writer", 5, [["remove_writer", 5]]],
+         ["ready", "W", 3], ["ready", "W", 5], ["ready", "R", 4]],
     ]
     for sc in base:
         for _ in range(12):
